@@ -83,9 +83,13 @@ TPanic == /\ Ev("Panic") /\ Adv /\ NoPendingUnlock
              \/ /\ pc[Th] = "idle" /\ outcome[Rec[l].e] = "panicked"          \* the stream's own panic, already applied
                 /\ UNCHANGED vars
 
+\* property layer only: a flush of the stream outside any append while nobody is inside one (harmless)
+TExtraFlush == /\ ~Strict /\ Ev("Flush") /\ Adv /\ NoPendingUnlock
+               /\ pc[Th] = "idle" /\ holder = 0 /\ UNCHANGED vars
+
 TFlushAsync == /\ Ev("FlushAsync") /\ Adv /\ Rec[l].ready = TRUE /\ UNCHANGED vars
 
-TNext == TReset \/ TAppStart \/ TLock \/ TNextEv \/ TFlushEv \/ TSkipFlush \/ TUnlock \/ TAppEnd \/ TPanic \/ TFlushAsync
+TNext == TReset \/ TAppStart \/ TLock \/ TNextEv \/ TFlushEv \/ TSkipFlush \/ TUnlock \/ TAppEnd \/ TPanic \/ TFlushAsync \/ TExtraFlush
 TSpec == TInit /\ [][TNext]_tvars
 
 TInv == Atomic /\ ExactlyOnce /\ FlushedOnReturn /\ (Strict => FlushEach)
